@@ -18,14 +18,15 @@ from harness.props import c06
 from harness.props.c06 import fr, tok_num, tok_opt, tok_unit, tok_val, close, U, observe
 
 PROP = 'C16'
-GENERATED = ['TimeUnits', 'TimeParConsts', 'HazardExprs', 'TimeDecls', 'StepClocks']
+GENERATED = ['TimeUnits', 'TimeParConsts', 'HazardExprs', 'TimeDecls', 'StepClocks', 'ParsUpdate']
 DRIVER = 'Drivers/C16.lean'
 DRIVER_MODULES = ['StarsimModel.Model.Hazard', 'StarsimModel.Model.TimePar', 'StarsimModel.Model.Proto']
 RULE = ('seeded (sim unit, dt) x (module unit, dt) x rate form (TimePar of any unit / plain number / year-sex-age table) x agents; '
         'every probability the real hazard function returns is compared with the model; distinct = distinct canonical model line; '
         'non-trivial = step length != 1 year or a table / eligibility branch')
 TRUSTED = ['np.digitize / sc.findnearest / pandas .loc semantics as used by the table lookups (compared, not proved)',
-           'float32 storage of ages (age increments compared within float32 rounding)']
+           'float32 storage of ages (age increments compared within float32 rounding)',
+           'ParsUpdate extractor: AST of Pars.update / Pars._update_timepar / atomic_classes (closed vocabulary, fails closed)']
 ASSUMPTIONS = ['probabilities are compared within 16 ulp of the exact rational model (float32 table values within 2^-22 relative)',
                'statistical oracle (events per year across dt) is a 6-sigma test on 20000 agents, labelled statistical']
 
@@ -275,6 +276,8 @@ def correspond(ctx):
     r3.correspond(ctx, sys.modules[__name__])
     from harness.props import c16_round4 as r4
     r4.correspond(ctx, sys.modules[__name__])
+    from harness.props import c16_round5 as r5
+    r5.correspond(ctx, sys.modules[__name__])
 
 
 def delivery_prob(su, sdt, dur, P):
@@ -481,6 +484,16 @@ def _r4(name):
 ORACLES.update({k: _r4(k) for k in ('realised', 'axis_ageing', 'axis_run_ageing')})
 
 
+def _r5(name):
+    def f(a):
+        from harness.props import c16_round5 as r5
+        return r5.ORACLES[name](a, sys.modules[__name__])
+    return f
+
+
+ORACLES.update({k: _r5(k) for k in ('override', 'waning', 'kernel', 'dt_pair')})
+
+
 def run_oracle(ctx, name, args):
     try:
         fails = ORACLES[name](args)
@@ -518,6 +531,8 @@ def search(ctx):
     r3.search(ctx, sys.modules[__name__], run_oracle)
     from harness.props import c16_round4 as r4
     r4.search(ctx, sys.modules[__name__], run_oracle)
+    from harness.props import c16_round5 as r5
+    r5.search(ctx, sys.modules[__name__], run_oracle)
     from harness.props import c16_zoo
     c16_zoo.search(ctx, sys.modules[__name__])
     run_oracle(ctx, 'events', dict(kind='births', dts=[1.0, 0.5, 0.2], seed=rng.randint(1, 10 ** 6)))
